@@ -33,6 +33,7 @@ func init() {
 		src := c16Source{kind: k.Kind, xml: k.Xml, js: string(k.Json), list: k.List}
 		if k.Kind == "sinks" {
 			c16Sinks(c, k.Xml)
+			c16RawOnFailingSink(c, k.Xml)
 		} else {
 			c16Explore(c, src, 2, true)
 		}
@@ -68,6 +69,31 @@ type shortWriter struct{ buf bytes.Buffer }
 func (w *shortWriter) Write(p []byte) (int, error) {
 	n := len(p) / 2
 	w.buf.Write(p[:n])
+	return n, errSink
+}
+
+// quotaWriter accepts quota bytes, fails once (reporting the partial count with the error) and accepts
+// everything offered afterwards: a caller that goes on writing after the error leaves a gap in buf.
+type quotaWriter struct {
+	quota  int
+	buf    bytes.Buffer
+	failed bool
+	after  int // Write calls after the failure
+}
+
+func (w *quotaWriter) Write(p []byte) (int, error) {
+	if w.failed {
+		w.after++
+		w.buf.Write(p)
+		return len(p), nil
+	}
+	if w.buf.Len()+len(p) <= w.quota {
+		w.buf.Write(p)
+		return len(p), nil
+	}
+	n := w.quota - w.buf.Len()
+	w.buf.Write(p[:n])
+	w.failed = true
 	return n, errSink
 }
 
@@ -537,13 +563,81 @@ func c16Sinks(c *Ctx, xmlDoc string) {
 				c.Violate(w.name, "sink-error-returned", "sinks", cas, nil, fmt.Sprintf("doc=%q sink=%s: returned %v instead of the sink's error", xmlDoc, sink, e))
 			}
 		}
+		// a sink that fails after every possible number of accepted bytes: the error is returned, what
+		// reached the sink is exactly that prefix of the full output, nothing is written after the failure
+		var full bytes.Buffer
+		if w.f(&full) != nil {
+			continue
+		}
+		for k := 0; k < full.Len(); k++ {
+			q := &quotaWriter{quota: k}
+			var e error
+			st, pan := protect(func() { e = w.f(q) })
+			c.S.Transitions++
+			c.S.Schedules++
+			if pan {
+				c.Violate(w.name, "panic", "sinks", cas, nil, st)
+				break
+			}
+			if e != errSink {
+				c.Violate(w.name, "sink-error-returned", "sinks", cas, nil, fmt.Sprintf("doc=%q sink fails after %d bytes: returned %v instead of the sink's error", xmlDoc, k, e))
+				break
+			}
+			if q.after > 0 || !bytes.Equal(q.buf.Bytes(), full.Bytes()[:k]) {
+				c.Violate(w.name, "partial-write-is-a-prefix", "sinks", cas, nil, fmt.Sprintf("doc=%q sink fails after %d bytes: %d Write calls after the failure; sink holds %q, full output %q", xmlDoc, k, q.after, q.buf.Bytes(), full.Bytes()))
+				break
+			}
+		}
+	}
+}
+
+// c16RawOnFailingSink: the Raw forms return the bytes the byte-returning forms return - whatever the sink did.
+func c16RawOnFailingSink(c *Ctx, xmlDoc string) {
+	m, err := mxj.NewMapXml([]byte(xmlDoc))
+	if err != nil {
+		return
+	}
+	cas := func() interface{} { return c16Case{Kind: "sinks", Xml: xmlDoc} }
+	for _, indent := range []bool{false, true} {
+		name := "Map.JsonWriterRaw"
+		var full []byte
+		if indent {
+			name = "Map.JsonIndentWriterRaw"
+			full, err = m.JsonIndent("", " ")
+		} else {
+			full, err = m.Json()
+		}
+		if err != nil {
+			continue
+		}
+		for k := 0; k <= len(full); k++ {
+			q := &quotaWriter{quota: k}
+			var raw []byte
+			st, pan := protect(func() {
+				if indent {
+					raw, _ = m.JsonIndentWriterRaw(q, "", " ")
+				} else {
+					raw, _ = m.JsonWriterRaw(q)
+				}
+			})
+			c.S.Transitions++
+			c.S.Schedules++
+			if pan {
+				c.Violate(name, "panic", "sinks", cas, nil, st)
+				break
+			}
+			if !bytes.Equal(raw, full) {
+				c.Violate(name, "raw-equals-bytes", "sinks", cas, nil, fmt.Sprintf("doc=%q sink accepts %d of %d bytes: the Raw form returned %q, the byte-returning form returns %q", xmlDoc, k, len(full), raw, full))
+				break
+			}
+		}
 	}
 }
 
 func c16Run(c *Ctx) {
 	mustBeDefault(c)
 	mxj.XMLEscapeChars(true)
-	c.S.Rule = "cases = source value x every encoder entry point: Maps decoded from the U-XML documents (<= N elements, <= 1-2 decorations) and JSON-shaped Maps (<= M nodes, keys {a,b,-x,#text}), MapSeqs decoded from the same documents, and lists of 1..3 Maps; entry points Xml, XmlIndent, XmlWriter, XmlIndentWriter (Map and MapSeq), Json, JsonIndent, JsonWriter[Raw], JsonIndentWriter[Raw] (default and safe), StringIndent, Maps.XmlString[Indent], Maps.JsonString[Indent], the four ...File writers; indent/prefix pairs over blanks; sinks accept-all, fail-at-once, short-write. Each entry point is executed under ascending and descending map-iteration order, twice in a row, and under every sequence of <= B deviations from the sorted order at every range-over-map inside the encoder (E-choice). Oracle: byte-identical output in all executions; attributes and child elements ascending; indented = compact up to whitespace-only character data; Writer/Raw/File forms = byte forms; sink errors returned; Maps forms = concatenation. non-trivial = source encoded by every entry point."
+	c.S.Rule = "cases = source value x every encoder entry point: Maps decoded from the U-XML documents (<= N elements, <= 1-2 decorations) and JSON-shaped Maps (<= M nodes, keys {a,b,-x,#text}), MapSeqs decoded from the same documents, and lists of 1..3 Maps; entry points Xml, XmlIndent, XmlWriter, XmlIndentWriter (Map and MapSeq), Json, JsonIndent, JsonWriter[Raw], JsonIndentWriter[Raw] (default and safe), StringIndent, Maps.XmlString[Indent], Maps.JsonString[Indent], the four ...File writers; indent/prefix pairs over blanks; sinks accept-all, fail-at-once, short-write, and fail-after-k-bytes for every k (then accepting again). Each entry point is executed under ascending and descending map-iteration order, twice in a row, and under every sequence of <= B deviations from the sorted order at every range-over-map inside the encoder (E-choice). Oracle: byte-identical output in all executions; attributes and child elements ascending; indented = compact up to whitespace-only character data; Writer/Raw/File forms = byte forms; sink errors returned, what reached a failing sink is exactly a prefix of the full output and nothing is written after the failure, and the Raw forms still return the whole encoding; Maps forms = concatenation. non-trivial = source encoded by every entry point."
 	c.S.Assumptions = []string{"gob output is excluded from the determinism clause (encoding/gob encodes maps in iteration order by design; the property names XML and JSON)", "runtime hash order is replaced by the owned order; a free-running pass on the uninstrumented build is supplementary"}
 	n1, nj, b := 3, 4, 2
 	if c.Thorough {
@@ -594,6 +688,7 @@ func c16Run(c *Ctx) {
 		}
 		if i%7 == 0 {
 			c16Sinks(c, d)
+			c16RawOnFailingSink(c, d)
 		}
 	}
 	g := newGen(GenP{Keys: []string{"a", "b", "-x", "#text"}, MaxList: 3, MaxKeys: 3, EmptyList: true, EmptyMap: true, ListInList: false, Leaves: []interface{}{"s", "<&>", 1.5, nullLeaf{}}})
